@@ -2857,16 +2857,12 @@ class SHA1Reader(BinaryIO):
         stored = self.f.read(20)
         # If git option index.skipHash is set the index will be empty
         if stored != self.sha1.digest() and (
-            not allow_empty
-            or (
-                len(stored) == 20
-                and sha_to_hex(RawObjectID(stored))
-                != b"0000000000000000000000000000000000000000"
-            )
+            not allow_empty or stored != b"\x00" * 20
         ):
+            # (a truncated file leaves fewer than 20 bytes here)
             raise ChecksumMismatch(
                 self.sha1.hexdigest(),
-                sha_to_hex(RawObjectID(stored)) if stored else b"",
+                binascii.hexlify(stored),
             )
 
     def close(self) -> None:
